@@ -49,6 +49,9 @@ const (
 	// MClientConn.processSettings adjusts the stream windows but does not Broadcast the condition
 	// variable the blocked senders wait on.
 	sigClientSettingsNoWake = "flow/client-sender-not-woken-by-SETTINGS_INITIAL_WINDOW_SIZE-increase"
+	// HEADERS and its CONTINUATION frames are separate Connection.Write calls and DATA writes of other
+	// streams take no lock: a DATA frame can land inside a header block.
+	sigInterleave = "flow/frame-of-another-stream-written-inside-HEADERS-CONTINUATION-block"
 	maxWindow               = 1<<31 - 1
 )
 
@@ -61,10 +64,11 @@ type pipeConn struct {
 
 func (c *pipeConn) Write(bufs ...buffer.IoBuffer) error {
 	c.mu.Lock()
-	defer c.mu.Unlock()
 	for _, b := range bufs {
 		c.out.Write(b.Bytes())
 	}
+	c.mu.Unlock()
+	runtime.Gosched() // a write is a natural preemption point of the real connection; no verdict depends on it
 	return nil
 }
 
@@ -146,6 +150,9 @@ type fstream struct {
 	errMu    sync.Mutex
 	err      error
 	lastGive string // what last raised this stream's window
+	wantHdr  []hf   // fields that must be in the first HEADERS of the stream (as decoded by x/net)
+	wantTrl  []hf   // fields of the trailer HEADERS (nil: the stream ends with DATA)
+	nHeaders int
 }
 
 type flowRun struct {
@@ -159,6 +166,7 @@ type flowRun struct {
 	pfr       *xhttp2.Framer  // peer writer
 	rfr       *xhttp2.Framer  // peer reader (over what MOSN wrote)
 	rbuf      bytes.Buffer
+	raw       []byte // everything MOSN wrote (after the preface)
 	prefaceOK bool
 	mfs       uint32 // SETTINGS_MAX_FRAME_SIZE in force: 16384 until the peer's SETTINGS was delivered (it is delivered before any stream starts)
 	iws       int64
@@ -288,9 +296,13 @@ func (r *flowRun) collect() {
 		r.prefaceOK = true
 	}
 	r.rbuf.Write(b)
+	r.raw = append(r.raw, b...)
 	for r.rbuf.Len() > 0 {
 		f, err := r.rfr.ReadFrame()
 		if err != nil {
+			if where := findInterleave(r.raw); where != "" {
+				r.fail(sigInterleave, "MOSN's output violates RFC 7540 6.10 (x/net: %v): %s", err, where)
+			}
 			r.fail("flow/mosn-output-not-parsable", "x/net cannot parse what MOSN wrote: %v", err)
 		}
 		h := f.Header()
@@ -328,14 +340,42 @@ func (r *flowRun) collect() {
 				if st.got != len(st.body) {
 					r.fail("flow/body-truncated", "stream %d: END_STREAM after %d of %d body bytes", st.id, st.got, len(st.body))
 				}
+				if st.wantTrl != nil {
+					r.fail("flow/trailers-lost", "stream %d: stream ended with DATA although trailers were handed over", st.id)
+				}
 			}
-		case *xhttp2.HeadersFrame:
-			if f.StreamEnded() {
-				if st := r.byID[h.StreamID]; st != nil && !st.ended {
-					st.ended = true
-					if st.got != len(st.body) {
-						r.fail("flow/body-truncated", "stream %d: HEADERS with END_STREAM after %d of %d body bytes", st.id, st.got, len(st.body))
+		case *xhttp2.MetaHeadersFrame:
+			st := r.byID[h.StreamID]
+			if st == nil {
+				break
+			}
+			st.nHeaders++
+			want, what := st.wantHdr, "header"
+			if st.nHeaders == 2 {
+				want, what = st.wantTrl, "trailer"
+			}
+			if st.nHeaders > 2 || (st.nHeaders == 2 && st.wantTrl == nil) {
+				r.fail("flow/unexpected-headers-frame", "stream %d: HEADERS frame #%d with %d fields", st.id, st.nHeaders, len(f.Fields))
+			}
+			for _, w := range want {
+				found := false
+				for _, g := range f.Fields {
+					if g.Name == w.N && g.Value == w.V {
+						found = true
+						break
 					}
+				}
+				if !found {
+					r.fail("flow/"+what+"-field-lost-or-changed", "stream %d: %s field %s = %s is not among the %d fields x/net decodes from MOSN's %s block", st.id, what, short(w.N), short(w.V), len(f.Fields), what)
+				}
+			}
+			if f.StreamEnded() && !st.ended {
+				st.ended = true
+				if st.got != len(st.body) {
+					r.fail("flow/body-truncated", "stream %d: HEADERS with END_STREAM after %d of %d body bytes", st.id, st.got, len(st.body))
+				}
+				if st.nHeaders == 1 && len(st.body) > 0 {
+					r.fail("flow/body-truncated", "stream %d: first HEADERS carries END_STREAM although a %d byte body was handed over", st.id, len(st.body))
 				}
 			}
 		case *xhttp2.RSTStreamFrame:
@@ -346,6 +386,32 @@ func (r *flowRun) collect() {
 			r.fail("flow/mosn-sent-goaway", "MOSN sent GOAWAY code %v to a well-behaved peer", f.ErrCode)
 		}
 	}
+}
+
+// findInterleave scans raw frame headers for a frame that sits between a HEADERS/CONTINUATION frame
+// without END_HEADERS and the CONTINUATION that has to follow it immediately.
+func findInterleave(raw []byte) string {
+	open, openAt := uint32(0), 0
+	for off := 0; off+9 <= len(raw); {
+		n := int(raw[off])<<16 | int(raw[off+1])<<8 | int(raw[off+2])
+		typ, flags := raw[off+3], raw[off+4]
+		sid := (uint32(raw[off+5])<<24 | uint32(raw[off+6])<<16 | uint32(raw[off+7])<<8 | uint32(raw[off+8])) & maxWindow
+		if open != 0 && (typ != 9 || sid != open) {
+			return fmt.Sprintf("%s frame (%d bytes) of stream %d at output offset %d follows the unfinished header block of stream %d begun at offset %d", frameName(typ), n, sid, off, open, openAt)
+		}
+		if typ == 1 || typ == 9 {
+			if flags&0x4 == 0 {
+				if open == 0 {
+					openAt = off
+				}
+				open = sid
+			} else {
+				open = 0
+			}
+		}
+		off += 9 + n
+	}
+	return ""
 }
 
 // judgeLiveness runs at a quiescent point.
@@ -421,10 +487,44 @@ func flowCase(rt *rapid.T) {
 			sizes[i] = rapid.SampledFrom(bodySizes).Draw(rt, "sizeBoundary")
 		}
 	}
+	type extra struct{ hdr, trl []hf }
+	extras := make([]extra, nStreams)
+	bigHeaders := false
+	for i := range extras {
+		for j, n := 0, rapid.SampledFrom([]int{0, 0, 1, 2, 4}).Draw(rt, "nExtraHeaders"); j < n; j++ {
+			l := rapid.SampledFrom([]int{0, 1, 10, 100, 100, 5000, 17000, 40000}).Draw(rt, "extraLen")
+			if l > 3000 && nStreams > 1 && ev.IsKnown(partFlow, sigInterleave) {
+				l = 3000 // listed finding: a block needing CONTINUATION frames is only generated on a connection with one stream
+			}
+			if l > 16000 {
+				bigHeaders = true
+			}
+			extras[i].hdr = append(extras[i].hdr, hf{N: fmt.Sprintf("x-gen-%d", j), V: string(codec.Fill(l, uint64(j+7*i), true))})
+		}
+		if rapid.IntRange(0, 3).Draw(rt, "trailers") == 0 {
+			extras[i].trl = []hf{{N: "x-trailer-a", V: string(codec.Fill(rapid.SampledFrom([]int{1, 20, 300}).Draw(rt, "trailerLen"), 3, true))}}
+		}
+	}
+	toHeader := func(l []hf, h http.Header) http.Header {
+		for _, f := range l {
+			h[http.CanonicalHeaderKey(f.N)] = []string{f.V}
+		}
+		return h
+	}
 	r.pfr = xhttp2.NewFramer(&r.peerOut, nil)
 	r.rfr = xhttp2.NewFramer(nil, &r.rbuf)
 	r.rfr.SetMaxReadFrameSize(1<<24 - 1)
+	r.rfr.ReadMetaHeaders = xhpack.NewDecoder(4096, nil) // MOSN's header blocks (HEADERS + CONTINUATION) are decoded by x/net
+	r.rfr.MaxHeaderListSize = 16 << 20
 	r.log("role=%s iws0=%d mfs=%d useStream=%v bodies=%v", r.role, iws0, mfs, useStream, sizes)
+	for i, e := range extras {
+		for _, f := range e.hdr {
+			r.log("s#%d hdr %s:%d", i, f.N, len(f.V))
+		}
+		if e.trl != nil {
+			r.log("s#%d trailers", i)
+		}
+	}
 
 	startWindow := int64(65535)
 	if iws0 >= 0 {
@@ -439,6 +539,15 @@ func flowCase(rt *rapid.T) {
 	classes := []string{"role:" + r.role, fmt.Sprintf("iws:%d", iws0), fmt.Sprintf("mfs:%d", mfs), fmt.Sprintf("streams:%d", nStreams)}
 	if useStream {
 		classes = append(classes, "use-stream")
+	}
+	if bigHeaders {
+		classes = append(classes, "header-block>16KiB")
+	}
+	for _, e := range extras {
+		if e.trl != nil {
+			classes = append(classes, "trailers")
+			break
+		}
 	}
 	sawSettingsChange, sawNegative := false, false
 	defer func() {
@@ -504,6 +613,7 @@ func flowCase(rt *rapid.T) {
 		var ss []xhttp2.Setting
 		if mfs != 0 {
 			ss = append(ss, xhttp2.Setting{ID: xhttp2.SettingMaxFrameSize, Val: mfs})
+			r.mfs = mfs // delivered before any stream exists
 		}
 		if iws0 >= 0 {
 			ss = append(ss, xhttp2.Setting{ID: xhttp2.SettingInitialWindowSize, Val: uint32(iws0)})
@@ -543,18 +653,23 @@ func flowCase(rt *rapid.T) {
 			r.deliver()
 			r.collect()
 			for i := 0; i < nStreams; i++ {
-				req := &http.Request{Method: "POST", Host: "upstream.test", Header: http.Header{"Content-Type": {"application/octet-stream"}},
+				req := &http.Request{Method: "POST", Host: "upstream.test", Header: toHeader(extras[i].hdr, http.Header{"Content-Type": {"application/octet-stream"}}),
 					URL: &url.URL{Scheme: "http", Host: "upstream.test", Path: "/s" + strconv.Itoa(i)}, ContentLength: int64(sizes[i])}
 				ms := mhttp2.NewMClientStream(r.cc, req)
 				ms.SendData = buffer.NewIoBufferBytes(append([]byte(nil), bodies[i]...))
 				ms.UseStream = useStream
+				if extras[i].trl != nil {
+					th := toHeader(extras[i].trl, http.Header{})
+					ms.Trailer = &th
+				}
 				var err error
 				r.mosn("RoundTrip(headers)", func() { err = ms.RoundTrip(context.Background()) })
 				if err != nil {
 					startErr = err
 					return
 				}
-				st := &fstream{idx: i, id: ms.GetID(), body: bodies[i], ptr: fmt.Sprintf("%p", ms), credit: r.iws, lastGive: "initial window"}
+				st := &fstream{idx: i, id: ms.GetID(), body: bodies[i], ptr: fmt.Sprintf("%p", ms), credit: r.iws, lastGive: "initial window", wantTrl: extras[i].trl}
+				st.wantHdr = append([]hf{{N: ":method", V: "POST"}, {N: ":path", V: "/s" + strconv.Itoa(i)}, {N: ":scheme", V: "http"}, {N: ":authority", V: "upstream.test"}, {N: "content-type", V: "application/octet-stream"}}, extras[i].hdr...)
 				r.streams = append(r.streams, st)
 				r.byID[st.id] = st
 				launch(st, func() error { return ms.RoundTrip(context.Background()) })
@@ -587,10 +702,15 @@ func flowCase(rt *rapid.T) {
 			}
 			for i, ms := range r.newMS {
 				ms := ms
-				ms.Response = &http.Response{StatusCode: 200, Header: http.Header{"Content-Type": {"application/octet-stream"}, "Content-Length": {strconv.Itoa(sizes[i])}}}
+				ms.Response = &http.Response{StatusCode: 200, Header: toHeader(extras[i].hdr, http.Header{"Content-Type": {"application/octet-stream"}, "Content-Length": {strconv.Itoa(sizes[i])}})}
 				ms.SendData = buffer.NewIoBufferBytes(append([]byte(nil), bodies[i]...))
 				ms.UseStream = useStream
-				st := &fstream{idx: i, id: ms.ID(), body: bodies[i], ptr: fmt.Sprintf("%p", ms), credit: r.iws, lastGive: "initial window"}
+				if extras[i].trl != nil {
+					th := toHeader(extras[i].trl, http.Header{})
+					ms.Trailer = &th
+				}
+				st := &fstream{idx: i, id: ms.ID(), body: bodies[i], ptr: fmt.Sprintf("%p", ms), credit: r.iws, lastGive: "initial window", wantTrl: extras[i].trl}
+				st.wantHdr = append([]hf{{N: ":status", V: "200"}, {N: "content-type", V: "application/octet-stream"}}, extras[i].hdr...)
 				r.streams = append(r.streams, st)
 				r.byID[st.id] = st
 				launch(st, func() error { return ms.SendResponse() })
